@@ -45,6 +45,7 @@ struct Scenario {
     threads: Vec<(&'static str, usize, usize)>,
     unique: bool,
     rf_over: Option<usize>,
+    rf_under: Option<usize>,
     two_devices: bool,
 }
 
@@ -81,12 +82,31 @@ fn scenario(k: usize) -> Scenario {
         2 => vec![("default", 3, 1)],
         _ => vec![("default", 2, 3)],
     };
+    // scenarios 6 and 16: an under-replicated class (2 inodes, --rf-under 3) whose inodes have several hard
+    // links each - the replica count must not depend on the order in which the links arrive from the pools
+    let many_links = k % 10 == 6;
+    let mut hard_links = vec![("d1/a", "d2/a_link")];
+    if many_links {
+        if k % 2 == 0 {
+            files.push(("d2/z1", content(4, 300, None)));
+            files.push(("d1/z2", content(4, 300, None)));
+        }
+        hard_links.extend(vec![
+            ("d2/z1", "d1/z1_l1"),
+            ("d2/z1", "d2/z1_l2"),
+            ("d2/z1", "d1/z1_l3"),
+            ("d1/z2", "d2/z2_l1"),
+            ("d1/z2", "d1/z2_l2"),
+            ("d1/z2", "d2/z2_l3"),
+        ]);
+    }
     Scenario {
         files,
-        hard_links: vec![("d1/a", "d2/a_link")],
-        threads,
+        hard_links,
+        threads: if many_links { vec![("default", 2, 3)] } else { threads },
         unique: k % 5 == 4,
         rf_over: if k % 5 == 3 { Some(2) } else { None },
+        rf_under: if many_links { Some(3) } else { None },
         two_devices: k % 3 == 2,
     }
 }
@@ -121,6 +141,8 @@ fn truth(root: &StdPath, sc: &Scenario) -> BTreeSet<BTreeSet<PathBuf>> {
         let n = inodes.len();
         let reported = if sc.unique {
             n < 2
+        } else if let Some(u) = sc.rf_under {
+            n < u
         } else {
             n > sc.rf_over.unwrap_or(1)
         };
@@ -142,6 +164,7 @@ fn run_once(root: &StdPath, sc: &Scenario) -> Outcome {
     config.min_size = fclones::FileLen(1);
     config.unique = sc.unique;
     config.rf_over = sc.rf_over;
+    config.rf_under = sc.rf_under;
     config.threads = sc
         .threads
         .iter()
